@@ -105,6 +105,9 @@ func (in *Interp) loadBits(p Ptr, n int) *Term {
 		}
 		return in.ctx.Const(uint8(8*n), v)
 	}
+	if wc, ok := o.wide[p.Off]; ok && wc.n == n {
+		return wc.t
+	}
 	var t *Term
 	for i := n - 1; i >= 0; i-- {
 		b := in.byteAt(o, p.Off+i)
@@ -124,8 +127,21 @@ func (in *Interp) byteAt(o *Object, off int) *Term {
 	return in.ctx.Const(8, uint64(o.conc[off]))
 }
 
+// dropWide forgets forwarded words overlapping [off, off+n).
+func dropWide(o *Object, off, n int) {
+	if len(o.wide) == 0 {
+		return
+	}
+	for k := off - 7; k < off+n; k++ {
+		if wc, ok := o.wide[k]; ok && k+wc.n > off {
+			delete(o.wide, k)
+		}
+	}
+}
+
 func (in *Interp) storeBits(p Ptr, n int, t *Term) {
 	o := in.checkAccess(p, n, true)
+	dropWide(o, p.Off, n)
 	if t.IsConst() {
 		v := t.val
 		for i := 0; i < n; i++ {
@@ -142,11 +158,22 @@ func (in *Interp) storeBits(p Ptr, n int, t *Term) {
 	}
 	for i := 0; i < n; i++ {
 		b := in.ctx.Extract(t, uint8(8*i+7), uint8(8*i))
-		in.setByte(o, p.Off+i, b)
+		in.setByteRaw(o, p.Off+i, b)
+	}
+	if n > 1 {
+		if o.wide == nil {
+			o.wide = map[int]wideCell{}
+		}
+		o.wide[p.Off] = wideCell{t, n}
 	}
 }
 
 func (in *Interp) setByte(o *Object, off int, b *Term) {
+	dropWide(o, off, 1)
+	in.setByteRaw(o, off, b)
+}
+
+func (in *Interp) setByteRaw(o *Object, off int, b *Term) {
 	if b.IsConst() {
 		o.conc[off] = byte(b.val)
 		if o.sym != nil {
@@ -477,7 +504,26 @@ func (in *Interp) memmove(dst, src Ptr, n int) {
 			}
 		}
 	}
+	// forwarded words lying wholly inside the source range travel with the copy
+	var wides map[int]wideCell
+	if len(so.wide) > 0 {
+		for k, wc := range so.wide {
+			if k >= src.Off && k+wc.n <= src.Off+n {
+				if wides == nil {
+					wides = map[int]wideCell{}
+				}
+				wides[k-src.Off] = wc
+			}
+		}
+	}
 	do := in.checkAccess(dst, n, true)
+	dropWide(do, dst.Off, n)
+	for k, wc := range wides {
+		if do.wide == nil {
+			do.wide = map[int]wideCell{}
+		}
+		do.wide[dst.Off+k] = wc
+	}
 	copy(do.conc[dst.Off:dst.Off+n], cb)
 	if len(do.sym) > 0 {
 		for i := 0; i < n; i++ {
@@ -497,6 +543,7 @@ func (in *Interp) memclr(p Ptr, n int) {
 		return
 	}
 	o := in.checkAccess(p, n, true)
+	dropWide(o, p.Off, n)
 	for i := 0; i < n; i++ {
 		o.conc[p.Off+i] = 0
 	}
